@@ -719,6 +719,24 @@ func (x *Exec) havocLoop(body ast.Node, extra []types.Object, st *State, env *En
 			}
 		}
 	}
+	// ghost variables assigned by the ghost code of loops nested inside this one
+	if x.con != nil {
+		ast.Inspect(body, func(nd ast.Node) bool {
+			switch nd.(type) {
+			case *ast.ForStmt, *ast.RangeStmt:
+				if ls, ok := x.con.Loops[x.loopOrd[nd]]; ok && ls != spec {
+					for _, name := range ghostAssigned(append(append([]ast.Stmt{}, ls.DoStart...), ls.DoEnd...)) {
+						if v, ok := st.gh["g:"+name]; ok {
+							h.gh["g:"+name] = Val{T: x.c.freshConst(name, x.c.sortOf(v.Ty)), Ty: v.Ty}
+						}
+					}
+				}
+			case *ast.FuncLit:
+				return false
+			}
+			return true
+		})
+	}
 	// ghost variables assigned by point specs located inside the loop body
 	for _, name := range x.ghostAssignedByPointsIn(body) {
 		if v, ok := st.gh["g:"+name]; ok {
